@@ -65,6 +65,14 @@ def relevant_hits(hits, flags, known, classes, last):
     return out
 
 
+def impl_reported(ctx, spec_violated):
+    """Will `K.report_mismatch` name a Spec violation of the implementation (on the case prefix
+    that ends at a first mismatching line)?  If not, oracle hits on mismatching lines further
+    down a case have no other reporter and must not be dropped."""
+    reps = [getattr(ctx, "pending_mismatch", None)] + list(getattr(ctx, "pending_mismatch_more", []))
+    return any(r is not None and spec_violated(r) for r in reps)
+
+
 def first_relevant(rep, scan, known, classes):
     """for report_mismatch: the oracle evaluated on a case prefix that ends at the mismatching line"""
     hits = scan(rep["ops"], rep["impl"])
